@@ -1,7 +1,17 @@
 # -*- coding: utf-8 -*-
 """C11 - aggregates equal their definitions over exactly the selected items
 (hotxlfp/formulas/statistical.py; SUM, PRODUCT, SUMIF, SUMIFS of mathtrig.py; the flatten /
-inumbers / parse_criteria helpers of utils.py)"""
+inumbers / parse_criteria helpers of utils.py)
+
+case kinds (field 'kind'; 'via' = lit | var | fn says how the call is made: formula text with array literals, formula over
+variables, direct call of the registered function):
+  stat   a number list under one of the 27 names of STAT_FNS in two arrangements (args / args2): textbook value + equal outcome
+  large  LARGE(arr, k) on two arrangements of the same items: the k-th largest item, twice
+  slope  SLOPE(y1..yn, x1..xn): the least-squares slope
+  crit   SUMIF / COUNTIF / AVERAGEIF / SUMIFS / AVERAGEIFS / MAXIFS: the aggregate over exactly the selected items
+         ('crits' = the criteria in parsed form, 'empty' = generated as an empty selection)
+  err    error items under SUM / PRODUCT / AVERAGE / MIN / MAX / MEDIAN: an injected error is the result
+  unit   fixed criteria-string x item table, argument-shape edge cases: compared with the Lean model only, no oracle"""
 import datetime
 import math
 import re
@@ -19,32 +29,98 @@ FUNCTIONS = [_ST + n for n in ['AVERAGE', 'AVEDEV', 'AVERAGEA', 'AVERAGEIF', 'CO
     ['hotxlfp.formulas.utils:' + n for n in ['iflatten', 'flatten', 'inumbers', 'numbers', 'parse_number',
                                              'iparse_number_array', 'iparse_number_array_aux', 'parse_criteria']] + \
     ['hotxlfp.helper.number:to_number']
-RULE = ('(stat) seeded lists of 1..40 integers / dyadic decimals / other decimals (any sign, forced duplicates) under each '
-        'aggregate, arranged twice (random permutation for the order-free ones, random partition into scalar arguments and '
-        'arrays nested to depth 3, as array literals, list-valued variables or direct calls): textbook value on the first '
-        'arrangement, equality of the two; (large) LARGE(arr,k) for every k of seeded lists; (slope) SLOPE on seeded (x,y) samples; '
-        '(crit) SUMIF/COUNTIF/AVERAGEIF/SUMIFS/AVERAGEIFS/MAXIFS with 1..3 criteria of the three forms (every operator, signed / '
-        'decimal numbers, wildcard patterns over {a,b,c,*,?}, cells containing * and ?) on equal-length ranges, incl. empty '
-        'selections; (err) one or two error values injected among the items of SUM/PRODUCT/AVERAGE/MIN/MAX/MEDIAN; (unit) one '
-        'item x one raw criteria string incl. malformed ones, argument-shape edge cases (model comparison only); fixed '
-        'regression cases of the repaired defects (wildcard argument order, MAXIFS start value, LARGE k against nested arrays, '
-        'ordering criterion on a text/blank cell; numeric criteria ranges contain text and blank cells). Non-trivial = the result is a value (or, for err/empty-selection cases, the demanded error).')
+RULE = ('seeded, not exhaustive: 3119 fixed cases + 3016*sc generated ones, sc = 2 quick (10 when scale is 5), 60 thorough '
+        '(9151 / 33279 / 184079 cases). Each generated call is made, by equal draw, as formula text with array literals (lit; '
+        'empty arrays, blanks, error values, floats in exponent notation go into variables), as formula over variables (var: '
+        'lists, blanks, error values, every third argument, floats off the 1/8 grid) or as direct call of the registered '
+        'function (fn). Number lists: n in 1..40 (mostly <= 10) values drawn with repetition from a pool of n/3, n/2, n or '
+        '2n+3 (forced duplicates) integers / dyadic k/8 / 1-2 place decimals, any sign, |v| <= 30 (15% of the pool <= 1000). '
+        '(stat, 8*sc for each of the 27 names of STAT_FNS + 500*sc with the name drawn, 13 common ones twice as likely) the '
+        'list arranged twice - random partition into scalar arguments and arrays nested to depth 3 (var/fn: 5% empty arrays in '
+        'between), the second time after a random permutation (80%, order-free names only, never HARMEAN with an item <= 0): '
+        'textbook value on the first arrangement, same outcome of the two; GEOMEAN/HARMEAN lists made positive 80%, 25% '
+        'replaced by 12/20/30/40 items of large (1e8..1e9, integers and x.5) or tiny (k/2^40, k < 4096) magnitude; PRODUCT of '
+        'more than 12 items keeps |v| <= 30. (large, 250*sc) LARGE(arr,k), arr such a list nested to depth 3, one k drawn from '
+        '1..n, second arrangement shuffled and nested afresh: exactly the k-th largest item, both times. (slope, 200*sc) SLOPE '
+        'on 2n scalar arguments (y first), n in {2,3,4,5,8,12,20}: integer / dyadic lists (70%) or 1-place decimals in '
+        '-20..20, all-equal x broken up 9 times in 10, 30% rescaled by powers of two (x by 2^-17 or 2^-30, y by 1, 2^-10 or '
+        '2^10): the least-squares slope within 1e-12 (integer / dyadic data) or 1e-9 (decimal or rescaled data) of '
+        'max(|slope|,1). (crit, 1400*sc, and 200*sc whose first criterion is replaced by one meant to select nothing: >100000, '
+        '<-100000, =77777.5, 99999, zzz, z*, ?z?*, =5) SUMIF/COUNTIF/AVERAGEIF (2 or 3 arguments) on ranges nested to depth 3, '
+        'SUMIFS/AVERAGEIFS/MAXIFS with 1..3 criteria on flat ranges, all of one length 1..40: numeric ranges (..IFS: 30% the '
+        'value list itself; 30% of the others with a quarter of the cells replaced by words, blanks and ""; SUMIF and '
+        '2-argument AVERAGEIF numbers only), text ranges of words of 0..4 characters over {a,b,c,*,?} (cells containing * and '
+        '?), COUNTIF also mixed word / integer cells; criteria of the three forms: each of the 6 operators + number, bare '
+        'number, wildcard pattern of 1..5 characters over {a,b,c,*,?} or bare word; the number is a cell of the range (70%), '
+        'one of {0,1,-1,2.5,-0.125,10,100000,-100000} or in -30..30, spelled also as +3, 3.0, .5; demanded: sum / count / mean '
+        '/ maximum over exactly the selected items, for an empty selection 0 or (AVERAGEIF(S)) an error. (err, 250*sc) 1 or 2 '
+        'error items among 1,2,3,5 or 9 integer / dyadic numbers under SUM/PRODUCT/AVERAGE/MIN/MAX/MEDIAN - the expression 1/0 '
+        'as a scalar argument (lit) or one of the 8 error values anywhere in the arrangement (var/fn): the result is one of '
+        'the injected errors. (unit, 3103 fixed, model comparison only, no oracle) COUNTIF of one item (29: numbers, logicals, '
+        'blank, 15 texts incl. "", wildcards, number spellings, upper case, newline; 2 errors, a date) x 86 raw criteria '
+        'strings incl. malformed ones, each string also in 5 fixed SUMIFS/MAXIFS/AVERAGEIFS/AVERAGEIF/SUMIF calls, 6 '
+        'non-string criteria x 2 calls, 165 argument-shape / arity / non-numeric-item cases over all modelled functions (all '
+        'direct calls), HARMEAN(0,-1) and HARMEAN(-1,0). 16 fixed oracle cases of the repaired defects (wildcard argument '
+        'order, MAXIFS start value, empty selections, LARGE k against nested arrays, ordering criterion on a text/blank cell, '
+        'nested SUM, 2 err). Compared with the Lean model: the first arrangement of every case, except crit cases (some 4%) '
+        'whose criteria text spells a decimal that is no double unless the call is formula text without variables. search() (a '
+        'proof or the correspondence broke, no oracle failure yet): the thorough stream (sc = 60*scale) on the oracle alone up '
+        'to the first failure; shrink (stat only) flattens both arrangements and drops items while the oracle still fails. No '
+        'time or step budgets, no weight. Non-trivial = the first result is a value (err: an error); every unit case and every '
+        'crit case generated as empty selection counts.')
 TRUSTED = ['CPython statistics / sum / sorted / max / min / fnmatch (modelled by their documented semantics: exact-rational '
            'mean and variance with the int-or-float result type, stable sort, first extreme item, first most frequent item; '
            'fnmatch without [ classes)',
-           'floats are exact rationals in the model: float results are compared within 1e-12 relative to the larger of the '
-           'result and the largest item; sqrt and n-th root results are carried symbolically and checked by squaring / powering',
-           'int()/float() text parsing beyond ASCII decimal syntax is library behaviour (kept out of the model comparison)',
-           'logicals among the items are modelled by their integer value; opaque host objects are assumed unordered and unequal to everything']
+           'floats are exact rationals in the model and in the oracle (a decimal literal in formula text is the exact decimal '
+           'in the model, the nearest double in Python): integer model results are compared exactly and by type, float '
+           'results within 1e-12 (SLOPE on data that is not integer / dyadic: 1e-9) relative to the largest of the result, '
+           'the largest numeric argument and 1 (SLOPE on the formula path: result and 1); sqrt and n-th root results are '
+           'carried symbolically and checked by squaring (1e-13 relative) / powering (1e-9)',
+           'oracle tolerances: exact (the rational value or the double nearest to it) for AVERAGE(A), MIN(A), MAX(A), '
+           'COUNT(A), MODE, VAR / VAR.S / VAR.P / VARP / VARA and LARGE always, for SUM, MEDIAN and the crit sums / counts / '
+           'maxima on integer / dyadic data (floats multiples of 1/8 with |v| <= 4096), for PRODUCT on integers; otherwise '
+           '1e-12 relative to the largest of the value, the largest numeric argument and 1 (on the tiny-magnitude HARMEAN '
+           'lists that is 1e-12 absolute); STDEV* by the square and GEOMEAN by the n-th power within 1e-9 relative; two '
+           'arrangements: exactly equal for the exact names on integer / dyadic data (LARGE always), else within 1e-12 '
+           'likewise',
+           'the yardsticks of the oracle are written by hand: the textbook formulas in Fraction arithmetic, the wildcard '
+           'matcher ref_glob (* any run of characters, ? exactly one, anything else itself), crit_number (an integer or the '
+           'double nearest to the decimal)',
+           'int()/float() text parsing beyond ASCII decimal syntax is library behaviour (such text, and text containing ", is '
+           'kept out of the model comparison; no generated or fixed case contains any)',
+           'logicals among the items are modelled by their integer value; opaque host objects are assumed unordered and '
+           'unequal to everything',
+           'a model answer (o tag) other than a symbolic sqrt / root is no opinion and accepted without comparison; the '
+           'second arrangement is never sent to the model; the direct path tells a raised exception from a returned error '
+           'value, the formula path compares the error code only']
 ASSUMPTIONS = ['textbook value of MODE: any most frequent item (the model pins the first in the original order)',
-               'GEOMEAN and HARMEAN are read on positive items (the harmonic and geometric means are defined for positive numbers): '
-               'with a zero or negative item nothing is demanded (HARMEAN(0,-1) = 0 but HARMEAN(-1,0) = #ERROR!: the first such item decides)',
-               'sample variance / STDEV of one item must be an error',
-               'order-freeness is demanded of SUM, PRODUCT, AVERAGE, MIN, MAX, COUNT, MEDIAN, VAR(.P), STDEV(.P), AVEDEV, GEOMEAN, HARMEAN, LARGE '
-               '(numerically: 1 and 1.0 are the same result); MODE and SLOPE only under regrouping',
-               'a text or blank criteria cell does not satisfy an ordering criterion such as ">3" and is simply not selected; <>n is satisfied by every cell that is not the number n',
-               'wildcard matching is case-sensitive and judged on single-case text only',
-               'COUNT counts every item (the statement is about numeric items)']
+               'GEOMEAN and HARMEAN are read on positive items (the harmonic and geometric means are defined for positive '
+               'numbers): with a zero or negative item no value is demanded (HARMEAN(0,-1) = 0 but HARMEAN(-1,0) = #ERROR!: '
+               'the first such item decides), only the same outcome of the two arrangements (HARMEAN then under regrouping '
+               'alone)',
+               'sample variance / STDEV (VAR, VAR.S, VARA, STDEV, STDEV.S, STDEVA) of one item must be an error - any outcome '
+               'that is not a value; the population forms of one item are 0',
+               'order-freeness is demanded of SUM, PRODUCT, AVERAGE(A), MIN(A), MAX(A), COUNT(A), MEDIAN, VAR / VAR.S / VAR.P '
+               '/ VARP / VARA, STDEV / STDEV.S / STDEV.P / STDEVP / STDEVA / STDEVPA, AVEDEV, GEOMEAN, HARMEAN, LARGE '
+               '(numerically: 1 and 1.0 are the same result; two errors: the same code); MODE and MODE.SNGL only under '
+               'regrouping; SLOPE is arranged once',
+               'a text or blank criteria cell does not satisfy an ordering criterion such as ">3" nor "=n" and is simply not '
+               'selected; <>n is satisfied by every cell that is not the number n, text and blank cells included',
+               'a wildcard pattern selects text cells only ("" is one; numbers and blanks never), * and ? inside a cell are '
+               'ordinary characters; wildcard matching is case-sensitive and judged on lower-case text only',
+               'a bare criterion that spells a number (also +3, 3.0, .5) selects the numeric cells equal to it, not text '
+               'cells; any other bare text selects the identical text cells; a decimal in a criterion is the double nearest '
+               'to it, as the cells are',
+               'empty selection: SUMIF(S), COUNTIF and MAXIFS give 0, AVERAGEIF(S) must be an error (any)',
+               'SUMIF sums and 2-argument AVERAGEIF averages the selected criteria cells themselves; with a third range '
+               'AVERAGEIF averages its cells at the same flattened positions; the ..IFS forms pair value and criteria cells '
+               'by position',
+               'an error item: the result must be an error whose code is one of the injected ones (either of two; returned, '
+               'raised or reported by parse alike), #DIV/0! for the expression 1/0',
+               'SLOPE: the first half of the arguments are the y, the second half the x; all x equal must not give a value - '
+               'demanded on integer / dyadic data only, on decimal or rescaled data nothing is demanded then',
+               'COUNT and COUNTA count every item (the statement is about numeric items; the lists hold numbers only, empty '
+               'arrays add nothing)']
 EXHAUSTIVE = {'quick': False, 'thorough': False}
 
 ORDER_FREE = ['SUM', 'PRODUCT', 'AVERAGE', 'MIN', 'MAX', 'COUNT', 'MEDIAN', 'VAR', 'VAR.S', 'VAR.P', 'VARP', 'STDEV', 'STDEV.S',
@@ -728,8 +804,8 @@ def gen_stat(rng, fn=None):
         if r < 0.8:
             xs = positive(xs)
         if rng.random() < 0.25:
-            # many items of large or of tiny magnitude: the mean is an ordinary number although the product (the sum of
-            # reciprocals) of the items is far outside the range of doubles
+            # many items of large or of tiny magnitude: the mean is an ordinary number although the product of the items leaves
+            # the range of doubles (certainly with 40 items; the sum of reciprocals that HARMEAN needs stays inside it)
             n = rng.choice([12, 20, 30, 40])
             if rng.random() < 0.5:
                 xs = [rng.randrange(10 ** 8, 10 ** 9) if rng.random() < 0.7 else float(rng.randrange(10 ** 8, 10 ** 9)) + 0.5 for _ in range(n)]
@@ -768,8 +844,8 @@ def gen_slope(rng):
     if rng.random() < 0.9 and len(set(xs)) == 1:
         xs[0] += 1
     if rng.random() < 0.3:
-        # the same data on another scale (x in hundred-thousandths or billionths, y likewise): the slope is an ordinary number
-        # although sums of squares of the xs are tiny
+        # the same data on another scale (x in hundred-thousandths or billionths; y as it is, in thousandths or in thousands):
+        # the slope is an ordinary number although sums of squares of the xs are tiny
         # (powers of two only: scaling by them is exact in binary floating point, so no new rounding enters)
         kx = rng.choice([2.0 ** -17, 2.0 ** -30])
         ky = rng.choice([1, 2 ** -10, 2 ** 10])
